@@ -123,3 +123,27 @@ def all_split_strings():
                     comps += ["we-" + "_".join(sorted(g, key=seasons.index)) for g in pwe]
                     out.add("__".join(sorted(comps)))
     return sorted(out)
+
+
+# ---------------------------------------------------------------------------------------------------
+# legacy (2.0) model documents: the second way a daily model comes into being (DailyModel.from_2_0_dict / from_2_0_json)
+# ---------------------------------------------------------------------------------------------------
+KINDS_2_0 = ["hdd_only", "cdd_only", "cdd_hdd", "intercept_only"]
+
+
+def draw_2_0_doc(rng, kind):
+    mp = {"intercept": float(np.round(rng.uniform(2, 60), 3))}
+    if kind in ("hdd_only", "cdd_hdd"):
+        mp.update(beta_hdd=float(np.round(rng.uniform(0.05, 4), 4)), heating_balance_point=float(rng.integers(40, 62)))
+    if kind in ("cdd_only", "cdd_hdd"):
+        mp.update(beta_cdd=float(np.round(rng.uniform(0.05, 4), 4)), cooling_balance_point=float(rng.integers(62, 80)))
+    return {"model_type": kind, "formula": "meter_value ~ ...", "status": "QUALIFIED", "model_params": mp, "r_squared_adj": 0.5, "warnings": []}
+
+
+def eval_2_0(doc, T):
+    """the 2.0 formula: intercept + beta_hdd * max(hbp - T, 0) + beta_cdd * max(T - cbp, 0) -> (predicted, heating, cooling)"""
+    mp = doc["model_params"]
+    T = np.asarray(T, dtype=float)
+    h = mp.get("beta_hdd", 0.0) * np.maximum(mp.get("heating_balance_point", 0.0) - T, 0.0) if "beta_hdd" in mp else np.zeros(len(T))
+    c = mp.get("beta_cdd", 0.0) * np.maximum(T - mp.get("cooling_balance_point", 0.0), 0.0) if "beta_cdd" in mp else np.zeros(len(T))
+    return mp["intercept"] + h + c, h, c
